@@ -60,6 +60,26 @@ def main():
             cov.start()
         try:
             mod.run(ctx)
+            # Escalation: the anchored source differs from the recorded baseline (someone changed the code), so the quick tier
+            # explores further seeds, within a time budget, as long as nothing has failed yet.  Never an alarm by itself.
+            changed, other = common.anchored_changes(a.pid, SRC)
+            if (changed or other) and tier == "quick" and not a.replay and os.environ.get("VERIF_NO_ESCALATION") != "1":
+                import random
+                import time
+
+                import numpy as np
+
+                rounds = []
+                budget = float(os.environ.get("VERIF_ESCALATION_BUDGET_S", "300"))
+                for k in range(1, 4 if changed else 2):
+                    if ctx.failures or time.time() - ctx.t0 > budget:
+                        break
+                    s2 = seed + 7919 * k
+                    ctx.rng = random.Random("%s-%d" % (a.pid, s2))
+                    ctx.np_rng = np.random.default_rng([s2, int(a.pid[1:])])
+                    mod.run(ctx)
+                    rounds.append(s2)
+                ctx.extra["escalation"] = {"reason": "library source differs from anchors_baseline.json", "anchored_files": changed, "other_files": other, "extra_seeds": rounds}
         finally:
             if cov is not None:
                 cov.stop()
